@@ -10,11 +10,12 @@ structure DSt where
   islots : FMap Nat   -- slot → token, by the implementation's results
   ok : Bool
   dbOK : Bool := true      -- sessions.db can be written
+  fix : Bool := false      -- code level: horizon repair present
   faulted : Bool := false  -- some operation of this block ran while it could not
 
 def startNs : Nat := 946684800 * nsPerSec   -- synctest bubbles start at 2000-01-01T00:00:00Z
 
-def DSt.init : DSt := ⟨St.init 0 0 0, Spec.init 0 0 0, startNs, FMap.empty, FMap.empty, false, true, false⟩
+def DSt.init : DSt := ⟨St.init 0 0 0, Spec.init 0 0 0, startNs, FMap.empty, FMap.empty, false, true, false, false⟩
 
 def nAddrs : Nat := 16
 
@@ -22,12 +23,15 @@ def dumpMap {β} (m : FMap β) (n : Nat) (f : Nat → β → List String) : List
   let items := (List.range n).filterMap (fun k => (m k).map (f k))
   toString items.length :: items.flatten
 
+def userName (k : Nat) : List Nat := [117, 48 + k]   -- "u<k>"
+
 def showDump (st : St) : List String :=
   (match st.rl with
    | none => ["R", "off"]
    | some l => "R" :: dumpMap l.recs nAddrs (fun k r => [toString k, toString r.untl, toString r.num])) ++
   ("M" :: dumpMap st.mem st.nextTok (fun k s => [toString k, toString s.expire, toString s.user])) ++
-  ("D" :: dumpMap st.db st.nextTok (fun k s => [toString k, toString s.expire, toString s.user]))
+  -- the bucket: raw record bytes as session.serialize writes them
+  ("D" :: dumpMap st.db st.nextTok (fun k s => [toString k, hexEncode (encodeSess (userName s.user) s.expire)]))
 
 def showLogin : LoginRes → List String
   | .tooMany r => ["429", toString r, "-"]
@@ -66,8 +70,25 @@ def step1 (d : DSt) (line : String) : DSt × String :=
     | some (ins, impl) =>
       match op, ins.map String.toNat? with
       | "C12.reset", [some ma, some bm, some ttl, some _] =>
-        (⟨St.init ma bm ttl, Spec.init ma bm ttl, startNs, FMap.empty, FMap.empty, true, true, false⟩,
+        (⟨St.init ma bm ttl, Spec.init ma bm ttl, startNs, FMap.empty, FMap.empty, true, true, false, false⟩,
          verdict (impl == ["ok"]) none "ok")
+      | "C12.reset", [some ma, some bm, some ttl, some _, some fix] =>
+        (⟨St.init ma bm ttl, Spec.init ma bm ttl, startNs, FMap.empty, FMap.empty, true, true, false, fix == 1⟩,
+         verdict (impl == ["ok"]) none "ok")
+      | "C12.callorder", [] =>
+        -- extracted facts: handleLogin asks the limiter before newCookie (which evaluates the
+        -- password); newCookie stores the session before it builds the cookie
+        let want := "check<newCookie;addSession<cookie"
+        (d, verdict (impl == [want]) (if impl == [want] then none else some "C12.call-order") want)
+      | "C12.basic", [some _, some peer, some _, some good, some strict] =>
+        if !d.ok then (d, "bad-op") else
+        let r := basicAuth d.st (good == 1)
+        let mstr := "\t".intercalate ((if r.1 then "1" else "0") :: showDump r.2)
+        -- with `strict` a Basic-auth request counts as a login attempt of the address
+        let authed := impl.headD "" == "1"
+        let bad := strict == 1 && mustReject d.sp peer d.now && authed
+        ({ d with st := r.2 }, verdict (mstr == "\t".intercalate impl)
+          (if bad then some "C12.throttle:basic-auth" else none) mstr)
       | "C12.sleep", [some ns] =>
         if !d.ok then (d, "bad-op") else
         ({ d with now := d.now + ns }, verdict (impl == ["ok"]) none "ok")
@@ -116,7 +137,7 @@ def step1 (d : DSt) (line : String) : DSt × String :=
         if !d.ok || good > 1 || tr > 1 then (d, "bad-op") else
         -- 999 = no proxy header yielded an address
         let o := Op.login ⟨peer, if hdr == 999 then none else some hdr, tr == 1⟩ (good == 1) user
-        let r := stepF d.st d.now d.dbOK o
+        let r := stepFX d.fix d.st d.now d.dbOK o
         let lr := match r.1 with | .login lr => lr | _ => .forbidden
         let ms := match lr with | .ok tok => d.mslots.set slot tok | _ => d.mslots
         let il := parseLogin impl
@@ -124,7 +145,7 @@ def step1 (d : DSt) (line : String) : DSt × String :=
         finish d o r.1 r.2 (il.map Obs.login) (showLogin lr ++ showDump r.2) impl "C12.throttle" ms is
       | "C12.req", [some slot] =>
         if !d.ok then (d, "bad-op") else
-        let r := stepF d.st d.now d.dbOK (.request ((d.mslots slot).getD (bogusTok slot)))
+        let r := stepFX d.fix d.st d.now d.dbOK (.request ((d.mslots slot).getD (bogusTok slot)))
         let b := match r.1 with | .auth b => b | _ => false
         let io := match impl with
           | "1" :: _ => some (Obs.auth true) | "0" :: _ => some (Obs.auth false) | _ => none
@@ -132,13 +153,13 @@ def step1 (d : DSt) (line : String) : DSt × String :=
           ((if b then "1" else "0") :: showDump r.2) impl "C12.session" d.mslots d.islots
       | "C12.logout", [some slot] =>
         if !d.ok then (d, "bad-op") else
-        let r := stepF d.st d.now d.dbOK (.logout ((d.mslots slot).getD (bogusTok slot)))
+        let r := stepFX d.fix d.st d.now d.dbOK (.logout ((d.mslots slot).getD (bogusTok slot)))
         finish d (.logout ((d.islots slot).getD (bogusTok slot))) r.1 r.2
           (match impl with | "ok" :: _ => some Obs.done | _ => none)
           ("ok" :: showDump r.2) impl "C12.session" d.mslots d.islots
       | "C12.restart", [] =>
         if !d.ok then (d, "bad-op") else
-        let r := stepF d.st d.now true .restart
+        let r := stepFX d.fix d.st d.now true .restart
         finish { d with dbOK := true } .restart r.1 r.2 (match impl with | "ok" :: _ => some Obs.done | _ => none)
           ("ok" :: showDump r.2) impl "C12.session" d.mslots d.islots
       | _, _ => (d, "bad-op")
